@@ -19,13 +19,18 @@ def kind_of(f):
     if f[0] == "K":
         return "K:" + f[-1].split(":")[0]
     o = f[-1]
-    view = f[5][0] if len(f) > 5 else "?"
-    return "W:%s:%s" % (view, o[:2] if o[0] == "C" else o.split(":")[0])
+    if f[0] == "Wc":
+        return "Wc:procs=%s:%s" % (f[6], "ok" if "+" not in o and "X:" not in o else "MIXED")
+    vi = 6 if f[0] == "Ws" else 5
+    view = f[vi][0] if len(f) > vi else "?"
+    return "%s:%s:%s" % (f[0], view, o[:2] if o[0] == "C" else o.split(":")[0])
 
 
 def nontrivial(f):
-    if f[0] == "K":
+    if f[0] in ("K", "Wc"):
         return True
+    if f[0] == "Ws":   # a request served by a handler that has served others before
+        return not f[1].endswith(".0")
     return len(f) > 5 and f[5] != "A" and not f[-1].startswith("err:")
 
 
@@ -39,8 +44,14 @@ def run(ctx, res):
                 "false each) x params (absent, null, {}, objects with all/some/unknown/case-variant/duplicate keys and "
                 "wrong-typed values, arrays of every length 0..n+2, wrong element types, nulls, rotated elements, leading "
                 "whitespace, scalars, malformed texts) x nil/non-nil error result; compared: called how often, the "
-                "argument's JSON re-encoding, result and error identity, error code, panics.  non-trivial = distinct "
-                "K line, or W line with non-empty params on an accepted function")
+                "argument's JSON re-encoding, result and error identity, error code, panics.  Ws: ONE wrapped handler "
+                "value serves a list of requests in order (requests rejected after partial decoding followed by valid "
+                "requests that leave arguments unspecified; random lists), every request predicted by itself.  Wc: ONE "
+                "wrapped handler value called by 8 goroutines (barrier start, 2000-4800 calls, GOMAXPROCS 1..16) with 12 "
+                "params texts carrying pairwise different values, on every wrapper path (plain, strict, array, "
+                "strict+array); per text the SET of observed outcomes must be the one predicted outcome.  "
+                "non-trivial = distinct K line, W line with non-empty params on an accepted function, Ws line "
+                "after the first of its sequence, Wc line")
     if lines:
         res.samples = ([l[:400] for l in lines if l.startswith("W") and "\tC1:" in l and "\tR:" in l][:2] +
                        [l[:400] for l in lines if l.startswith("W") and l.endswith("\tI")][:2] +
